@@ -1581,3 +1581,91 @@ Proof. repeat split; vm_compute; reflexivity. Qed.
 
 Example ex_left_boundary : left_boundary ex_manifest (mkTok TkKWBuild 18 5 3 0).
 Proof. right. exists 10. split; reflexivity. Qed.
+
+(* ====================================================================================================== *)
+(* EXPORTED LEMMAS (all closed under the global context; restated in Props/Properties_c17lex.v)
+
+   Vocabulary
+     at_data data s              exists pre, data = pre ++ l_rest s /\ l_pos s = length pre   (s is a cursor into data)
+     slice data a b              firstn (b - a) (skipn a data)
+     token_slice data t          slice data (tk_start t) (tk_start t + tk_len t)
+     token_after data t          skipn (tk_start t + tk_len t) data
+     gap_units c                 c is a sequence of: one non-newline space (9, 11, 12, 32) | 36 10 | 36 10 13 | 36 13 10
+     kind_facts m k body rest'   what is known of a token of kind k with bytes body, followed by rest', lexed in mode m
+     token_facts data m t        kind_facts m (tk_kind t) (token_slice data t) (token_after data t)
+     tok_chain data pos toks     each token starts at or after the end of its predecessor (the first: after pos), ends
+                                 inside data, and the bytes skipped in between are gap_units
+     toks_end pos toks           offset behind the last token;  rebuild data pos toks = gaps and token bodies in order
+     eof_last toks               the last token is EndOfFile and no other is
+     regular_mode m              m = MNone \/ m = MIdentifierSpecific
+     is_identlike k              k is Identifier or one of the six keyword kinds
+     left_boundary data t        tk_start t = 0 \/ the byte at tk_start t - 1 is not an identifier character
+
+   C19 (termination, bounds, tiling, EndOfFile)
+     lex_total                 : forall m s, exists t s', lex m s = Ok (t, s')
+     lex_progress              : forall data m s t s', at_data data s -> lex m s = Ok (t, s') ->
+                                 (tk_kind t = TkEndOfFile /\ tk_len t = 0 /\ tk_start t = length data /\
+                                  l_pos s' = length data /\ l_rest s' = []) \/
+                                 (tk_kind t <> TkEndOfFile /\ 0 < tk_len t /\ l_pos s < l_pos s' /\ l_pos s' <= length data)
+     lex_call_facts            : forall data m s t s', at_data data s -> lex m s = Ok (t, s') ->
+                                 at_data data s' /\ l_pos s <= tk_start t /\ l_pos s' = tk_start t + tk_len t /\
+                                 l_pos s' <= length data /\ gap_units (slice data (l_pos s) (tk_start t)) /\ token_facts data m t
+     lex_eof_iff_at_end        : forall data m s t s', at_data data s -> lex m s = Ok (t, s') ->
+                                 (tk_kind t = TkEndOfFile <-> tk_start t = length data)
+     lex_all_total             : forall m data, exists toks, lex_all m data = Ok toks
+     lex_stream_total          : forall modes data, exists toks, lex_stream modes data = Ok toks
+     lex_stream_length         : lex_stream modes data = Ok toks -> length toks = length modes
+     lex_all_stream            : lex_all m data = Ok toks -> lex_stream (repeat m (length toks)) data = Ok toks /\ eof_last toks
+     lex_stream_chain          : lex_stream modes data = Ok toks -> tok_chain data 0 toks
+     lex_in_bounds             : lex_stream modes data = Ok toks -> In t toks -> tk_start t + tk_len t <= length data
+     lex_tokens_ordered        : lex_stream modes data = Ok (l1 ++ t1 :: t2 :: l2) ->
+                                 tk_start t1 + tk_len t1 <= tk_start t2 /\
+                                 gap_units (slice data (tk_start t1 + tk_len t1) (tk_start t2))        (= lex_gaps_blank)
+     lex_first_gap             : lex_stream modes data = Ok (t :: ts) -> gap_units (slice data 0 (tk_start t))
+     gap_units_inv             : the exact set a gap is made of (inversion of gap_units)
+     lex_stream_tiles          : lex_stream modes data = Ok toks ->
+                                 data = rebuild data 0 toks ++ skipn (toks_end 0 toks) data /\
+                                 toks_end 0 toks = length (rebuild data 0 toks)
+     lex_all_tiles             : lex_all m data = Ok toks ->
+                                 rebuild data 0 toks = data /\ toks_end 0 toks = length data /\ tok_chain data 0 toks
+     lex_eof_only_at_end       : lex_stream modes data = Ok toks -> In t toks ->
+                                 (tk_kind t = TkEndOfFile -> tk_start t = length data /\ tk_len t = 0) /\
+                                 (tk_kind t <> TkEndOfFile -> 0 < tk_len t)
+     lex_stream_token_facts    : lex_stream modes data = Ok toks -> Forall2 (token_facts data) modes toks
+
+   C17 (bytes 0x80-0xFF ordinary; keywords whole words)
+     high_byte_classes         : 128 <= b -> is_space b = false /\ is_nn_space b = false /\ is_nl b = false /\
+                                 is_ident_char b = false /\ is_simple_ident_char b = false /\
+                                 forall r pos line col, peek (mkL (b :: r) pos line col) = Some b /\
+                                                        fst (getc (mkL (b :: r) pos line col)) = Some b
+     lex_high_byte_regular     : 128 <= b -> regular_mode m ->
+                                 lex m (mkL (b :: r) pos line col) = Ok (mkTok TkUnknown pos 1 line col, mkL r (S pos) line (col + 1))
+     lex_high_byte_string      : 128 <= b -> m = MPathString \/ m = MVariableString ->
+                                 exists n s', lex m (mkL (b :: r) pos line col) = Ok (mkTok TkString pos (S n) line col, s')
+     lex_high_bytes_ordinary   : lex_stream modes data = Ok toks -> nth_error data i = Some b -> 128 <= b -> i < toks_end 0 toks ->
+                                 exists m t, In (m, t) (combine modes toks) /\ tk_start t <= i < tk_start t + tk_len t /\
+                                   ((tk_kind t = TkString /\ (m = MPathString \/ m = MVariableString)) \/
+                                    (tk_kind t = TkComment /\ regular_mode m /\ tk_start t < i) \/
+                                    (tk_kind t = TkUnknown /\ regular_mode m /\ tk_start t = i /\ tk_len t = 1))
+     lex_all_high_bytes_in_strings : lex_all m data = Ok toks -> m = MPathString \/ m = MVariableString ->
+                                 nth_error data i = Some b -> 128 <= b ->
+                                 exists t, In t toks /\ tk_kind t = TkString /\ tk_start t <= i < tk_start t + tk_len t
+     lex_all_high_bytes_unknown : lex_all m data = Ok toks -> regular_mode m -> nth_error data i = Some b -> 128 <= b ->
+                                 exists t, In t toks /\ tk_start t <= i < tk_start t + tk_len t /\
+                                   ((tk_kind t = TkUnknown /\ tk_start t = i /\ tk_len t = 1) \/ (tk_kind t = TkComment /\ tk_start t < i))
+     lex_keywords_whole        : at_data data s -> lex m s = Ok (t, s') ->
+                                 (is_keyword (tk_kind t) = true -> m = MNone /\ In (token_slice data t, tk_kind t) keyword_table) /\
+                                 (m = MNone -> forall k, In (token_slice data t, k) keyword_table -> tk_kind t = k) /\
+                                 (is_identlike (tk_kind t) = true ->
+                                    token_slice data t <> [] /\ Forall (fun b => is_ident_char b = true) (token_slice data t) /\
+                                    ends_with (fun b => negb (is_ident_char b)) (token_after data t))
+     lex_no_keywords_outside_none : at_data data s -> lex m s = Ok (t, s') -> m <> MNone -> is_keyword (tk_kind t) = false
+     lex_identifier_left_boundary : lex_stream modes data = Ok toks -> In t toks -> is_identlike (tk_kind t) = true -> left_boundary data t
+     lex_first_token_kw_ok     : charclass_matches is_ident_char ic = true -> mc < 4 -> lex (mode_of_code mc) (init w) = Ok (t, s') ->
+                                 kw_entry_ok ic (mc, w, kind_code (tk_kind t), N.of_nat (tk_len t)) = true
+     keywords_match_model_ok   : charclass_matches is_ident_char ic = true ->
+                                 forallb (fun e => let '(m, _, _, _) := e in m <? 4) tbl = true ->
+                                 keywords_match_model tbl = true -> keywords_ok ic tbl = true
+   Table side conditions (vm_compute in the property file, over coq/gen/Gen_NinjaKeywords.v):
+     families_complete, probes_cover, charclass_matches (both classes), keywords_ok, keywords_match_model.
+   Non-vacuity: the Examples ex_* above.  No statement had to be weakened or refuted. *)
